@@ -22,6 +22,34 @@ Section Rot.
   Proof. unfold aggregate_node, aggregate. destruct (aeqb _ _); cbn; auto. Qed.
 
   (* ---- one colour assignment at the focus (also lifts the "colour of n not yet set" form) *)
+  Definition treeSs (sk : option N) (s : pstate) (t : tree) : Prop := treeS id_of sk (p_hooks s) (p_root s) t.
+
+  Lemma set_color_t sk ctx c0 l x a r (s : pstate) c :
+    NoDup (ids (plug ctx (T c0 l x a r))) ->
+    (sk = None \/ sk = Some (id_of x)) ->
+    treeSs sk s (plug ctx (T c0 l x a r)) ->
+    treeSs None (set_color s (id_of x) (Some c)) (plug ctx (T c l x a r)).
+  Proof.
+    clear agg aeqb ek.
+    intros Nd Hsk (A & B & D). unfold treeSs, treeS. rewrite hooks_set_color. cbn [p_root set_color upd].
+    rewrite ids_plug in Nd, D. cbn [inorder] in Nd, D.
+    apply tinv_plug in B. destruct B as [Bs Bc]. cbn [tinv root_id] in Bs.
+    destruct Bs as ((X1 & X2 & X3 & X4) & Bl & Br).
+    assert (Nl : ~ In (id_of x) (ids l)) by ni Nd.
+    assert (Nr : ~ In (id_of x) (ids r)) by ni Nd.
+    assert (Nc : ~ In (id_of x) (cids id_of ctx)) by (unfold cids; ni Nd).
+    split; [rewrite root_plug in *; exact A|]. split.
+    - apply tinv_plug. cbn [tinv root_id]. rewrite hupd_same. split; [split|].
+      + repeat split; assumption.
+      + split; apply tinv_hupd; try assumption; destruct Hsk as [->| ->]; try assumption;
+          apply (tinv_unskip _ id_of (id_of x)); assumption.
+      + apply cinv_hupd; [assumption|]. destruct Hsk as [->| ->]; [assumption|].
+        apply (cinv_unskip _ id_of (id_of x)); assumption.
+    - rewrite ids_plug. cbn [inorder]. intros j Hj. specialize (D j Hj).
+      unfold hupd. destruct (N.eqb_spec j (id_of x)) as [->|]; [|exact D].
+      exfalso. apply Hj. rewrite !map_app, !in_app_iff. cbn [map In]. tauto.
+  Qed.
+
   Lemma set_color_ok sk ctx c0 l x a r (s : pstate) c :
     NoDup (ids (plug ctx (T c0 l x a r))) ->
     (sk = None \/ sk = Some (id_of x)) ->
@@ -29,24 +57,9 @@ Section Rot.
     reprs None (set_color s (id_of x) (Some c)) (plug ctx (T c l x a r)).
   Proof.
     clear agg aeqb ek.
-    intros Nd Hsk (A & B & C & D). unfold reprs. rewrite hooks_set_color. cbn [p_root set_color upd].
-    rewrite ids_plug in Nd, C, D. cbn [inorder] in Nd, C, D.
-    apply tinv_plug in B. destruct B as [Bs Bc]. cbn [tinv root_id] in Bs.
-    destruct Bs as ((X1 & X2 & X3 & X4) & Bl & Br).
-    assert (Nl : ~ In (id_of x) (ids l)) by ni Nd.
-    assert (Nr : ~ In (id_of x) (ids r)) by ni Nd.
-    assert (Nc : ~ In (id_of x) (cids id_of ctx)) by (unfold cids; ni Nd).
-    split; [rewrite root_plug in *; exact A|]. split; [|split].
-    - apply tinv_plug. cbn [tinv root_id]. rewrite hupd_same. split; [split|].
-      + repeat split; assumption.
-      + split; apply tinv_hupd; try assumption; destruct Hsk as [->| ->]; try assumption;
-          apply (tinv_unskip _ id_of (id_of x)); assumption.
-      + apply cinv_hupd; [assumption|]. destruct Hsk as [->| ->]; [assumption|].
-        apply (cinv_unskip _ id_of (id_of x)); assumption.
-    - rewrite ids_plug. cbn [inorder]. apply dll_hupd_keep; [reflexivity|reflexivity|exact C].
-    - rewrite ids_plug. cbn [inorder]. intros j Hj. specialize (D j Hj).
-      unfold hupd. destruct (N.eqb_spec j (id_of x)) as [->|]; [|exact D].
-      exfalso. apply Hj. rewrite !map_app, !in_app_iff. cbn [map In]. tauto.
+    intros Nd Hsk H. apply reprS_split in H. destruct H as [Ht Hl]. apply reprS_split. split.
+    - apply (set_color_t sk ctx c0 l x a r s c Nd Hsk Ht).
+    - rewrite ids_plug in *. cbn [inorder] in *. revert Hl. apply listS_ps. apply ps_set_color.
   Qed.
 
   (* ---- the assignment to the slot that points to the focus: _root, or left / right of the innermost frame's node.
@@ -112,16 +125,17 @@ Section Rot.
   Qed.
 
   (* ---- rotateLeft(n): n = right child of u *)
-  Theorem rotateLeft_ok ctx cu xl xu a1 cn v xn a2 y (s : pstate) :
+  Theorem rotateLeft_t ctx cu xl xu a1 cn v xn a2 y (s : pstate) :
     NoDup (ids (plug ctx (T cu xl xu a1 (T cn v xn a2 y)))) ->
-    reprs None s (plug ctx (T cu xl xu a1 (T cn v xn a2 y))) ->
+    treeSs None s (plug ctx (T cu xl xu a1 (T cn v xn a2 y))) ->
     exists s', rotateLeft agg aeqb ek s (id_of xn) = POk s'
-               /\ reprs None s' (plug ctx (T cn (T cu xl xu tt v) xn tt y)).
+               /\ treeSs None s' (plug ctx (T cn (T cu xl xu tt v) xn tt y))
+               /\ ps_same (p_hooks s) (p_hooks s').
   Proof.
-    intros Nd (A & B & C & D). unfold reprs.
+    intros Nd (A & B & D). unfold treeSs, treeS.
     assert (Eids : ids (T cn (T cu xl xu tt v) xn tt y) = ids (T cu xl xu a1 (T cn v xn a2 y))).
     { cbn [inorder]. rewrite <- app_assoc. reflexivity. }
-    rewrite ids_plug in Nd, C, D. pose proof Nd as Nd0. cbn [inorder] in Nd.
+    rewrite ids_plug in Nd, D. pose proof Nd as Nd0. cbn [inorder] in Nd.
     apply tinv_plug in B. destruct B as [Bs Bc]. cbn [tinv root_id] in Bs.
     destruct Bs as ((U1 & U2 & U3 & U4) & Bxl & (N1 & N2 & N3 & N4) & Bv & By).
     rewrite root_plug in A. cbn [root_id] in A.
@@ -193,13 +207,13 @@ Section Rot.
     destruct (aggregate_node_hooks s6 u) as [-> ->].
     assert (Nsub : forall j, In j (ids xl) \/ j = u \/ In j (ids v) \/ j = n \/ In j (ids y) -> ~ In j (cids id_of ctx)).
     { intros j Hj. unfold cids. subst u n. destruct Hj as [Hj|[->|[Hj|[->|Hj]]]]; ni Nd. }
-    split; [rewrite root_plug; exact R6|]. split; [|split].
+    split; [|eapply ps_trans; [exact P5|exact P6]].
+    split; [rewrite root_plug; exact R6|]. split.
     - apply tinv_plug. cbn [tinv root_id]. split; [|exact C6].
       rewrite !F6 by (apply Nsub; tauto). fold u. fold n. rewrite Hu5, Hn5. cbn.
       split; [repeat split; reflexivity|]. split; [split; [repeat split; reflexivity|]|].
       + split; (eapply tinv_ext; [|eassumption]); intros j Hj; apply F6, Nsub; tauto.
       + eapply tinv_ext; [|exact Ty]. intros j Hj. apply F6, Nsub. tauto.
-    - rewrite ids_plug, Eids. revert C. apply dll_ext. intros j _. destruct (P6 j) as [-> ->]. apply P5.
     - rewrite ids_plug, Eids. intros j Hj. specialize (D j Hj).
       repeat (progress (rewrite ?map_app, ?in_app_iff in Hj; cbn [map In inorder] in Hj)).
       rewrite F6 by (unfold cids; rewrite in_app_iff; tauto).
@@ -210,17 +224,32 @@ Section Rot.
         repeat (progress (rewrite ?map_app, ?in_app_iff; cbn [map In inorder])). tauto.
   Qed.
 
-  (* ---- rotateRight(n): n = left child of u *)
-  Theorem rotateRight_ok ctx cu xl xu a1 cn v xn a2 y (s : pstate) :
-    NoDup (ids (plug ctx (T cu (T cn y xn a2 v) xu a1 xl))) ->
-    reprs None s (plug ctx (T cu (T cn y xn a2 v) xu a1 xl)) ->
-    exists s', rotateRight agg aeqb ek s (id_of xn) = POk s'
-               /\ reprs None s' (plug ctx (T cn y xn tt (T cu v xu tt xl))).
+  Theorem rotateLeft_ok ctx cu xl xu a1 cn v xn a2 y (s : pstate) :
+    NoDup (ids (plug ctx (T cu xl xu a1 (T cn v xn a2 y)))) ->
+    reprs None s (plug ctx (T cu xl xu a1 (T cn v xn a2 y))) ->
+    exists s', rotateLeft agg aeqb ek s (id_of xn) = POk s'
+               /\ reprs None s' (plug ctx (T cn (T cu xl xu tt v) xn tt y)).
   Proof.
-    intros Nd (A & B & C & D). unfold reprs.
+    intros Nd H. apply reprS_split in H. destruct H as [Ht Hl].
+    destruct (rotateLeft_t ctx cu xl xu a1 cn v xn a2 y s Nd Ht) as (s' & E & Ht' & Hp).
+    exists s'. split; [exact E|]. apply reprS_split. split; [exact Ht'|].
+    assert (Eids : ids (plug ctx (T cn (T cu xl xu tt v) xn tt y)) = ids (plug ctx (T cu xl xu a1 (T cn v xn a2 y)))).
+    { rewrite !ids_plug. cbn [inorder]. rewrite <- app_assoc. reflexivity. }
+    rewrite Eids. revert Hl. apply listS_ps. exact Hp.
+  Qed.
+
+  (* ---- rotateRight(n): n = left child of u *)
+  Theorem rotateRight_t ctx cu xl xu a1 cn v xn a2 y (s : pstate) :
+    NoDup (ids (plug ctx (T cu (T cn y xn a2 v) xu a1 xl))) ->
+    treeSs None s (plug ctx (T cu (T cn y xn a2 v) xu a1 xl)) ->
+    exists s', rotateRight agg aeqb ek s (id_of xn) = POk s'
+               /\ treeSs None s' (plug ctx (T cn y xn tt (T cu v xu tt xl)))
+               /\ ps_same (p_hooks s) (p_hooks s').
+  Proof.
+    intros Nd (A & B & D). unfold treeSs, treeS.
     assert (Eids : ids (T cn y xn tt (T cu v xu tt xl)) = ids (T cu (T cn y xn a2 v) xu a1 xl)).
     { cbn [inorder]. rewrite <- app_assoc. reflexivity. }
-    rewrite ids_plug in Nd, C, D. pose proof Nd as Nd0. cbn [inorder] in Nd.
+    rewrite ids_plug in Nd, D. pose proof Nd as Nd0. cbn [inorder] in Nd.
     apply tinv_plug in B. destruct B as [Bs Bc]. cbn [tinv root_id] in Bs.
     destruct Bs as ((U1 & U2 & U3 & U4) & ((N1 & N2 & N3 & N4) & By & Bv) & Bxl).
     rewrite root_plug in A. cbn [root_id] in A.
@@ -292,13 +321,13 @@ Section Rot.
     destruct (aggregate_node_hooks s6 u) as [-> ->].
     assert (Nsub : forall j, In j (ids xl) \/ j = u \/ In j (ids v) \/ j = n \/ In j (ids y) -> ~ In j (cids id_of ctx)).
     { intros j Hj. unfold cids. subst u n. destruct Hj as [Hj|[->|[Hj|[->|Hj]]]]; ni Nd. }
-    split; [rewrite root_plug; exact R6|]. split; [|split].
+    split; [|eapply ps_trans; [exact P5|exact P6]].
+    split; [rewrite root_plug; exact R6|]. split.
     - apply tinv_plug. cbn [tinv root_id]. split; [|exact C6].
       rewrite !F6 by (apply Nsub; tauto). fold u. fold n. rewrite Hu5, Hn5. cbn.
       split; [repeat split; reflexivity|]. split; [|split; [repeat split; reflexivity|]].
       + eapply tinv_ext; [|exact Ty]. intros j Hj. apply F6, Nsub. tauto.
       + split; (eapply tinv_ext; [|eassumption]); intros j Hj; apply F6, Nsub; tauto.
-    - rewrite ids_plug, Eids. revert C. apply dll_ext. intros j _. destruct (P6 j) as [-> ->]. apply P5.
     - rewrite ids_plug, Eids. intros j Hj. specialize (D j Hj).
       repeat (progress (rewrite ?map_app, ?in_app_iff in Hj; cbn [map In inorder] in Hj)).
       rewrite F6 by (unfold cids; rewrite in_app_iff; tauto).
@@ -307,5 +336,19 @@ Section Rot.
       + intros ->. apply Hj. fold n. tauto.
       + destruct v as [|cv vl xv av vr]; [discriminate|]. cbn. intros E0. injection E0 as <-. apply Hj.
         repeat (progress (rewrite ?map_app, ?in_app_iff; cbn [map In inorder])). tauto.
+  Qed.
+
+  Theorem rotateRight_ok ctx cu xl xu a1 cn v xn a2 y (s : pstate) :
+    NoDup (ids (plug ctx (T cu (T cn y xn a2 v) xu a1 xl))) ->
+    reprs None s (plug ctx (T cu (T cn y xn a2 v) xu a1 xl)) ->
+    exists s', rotateRight agg aeqb ek s (id_of xn) = POk s'
+               /\ reprs None s' (plug ctx (T cn y xn tt (T cu v xu tt xl))).
+  Proof.
+    intros Nd H. apply reprS_split in H. destruct H as [Ht Hl].
+    destruct (rotateRight_t ctx cu xl xu a1 cn v xn a2 y s Nd Ht) as (s' & E & Ht' & Hp).
+    exists s'. split; [exact E|]. apply reprS_split. split; [exact Ht'|].
+    assert (Eids : ids (plug ctx (T cn y xn tt (T cu v xu tt xl))) = ids (plug ctx (T cu (T cn y xn a2 v) xu a1 xl))).
+    { rewrite !ids_plug. cbn [inorder]. rewrite <- app_assoc. reflexivity. }
+    rewrite Eids. revert Hl. apply listS_ps. exact Hp.
   Qed.
 End Rot.
